@@ -270,7 +270,9 @@ class Node(object):
         if changing_individual.priority_class != changing_individual.prev_priority_class:
             self.change_priority_queue(changing_individual)
             if self.c > 0:
-                self.decide_preempt(self.choose_next_customer())
+                next_customer = self.choose_next_customer()
+                if next_customer is not None and all(s.busy for s in self.servers):
+                    self.decide_preempt(next_customer)
         self.simulation.statetracker.change_state_classchange(self, changing_individual)
         changing_individual.previous_class = changing_individual.next_class
         changing_individual.prev_priority_class = changing_individual.priority_class
